@@ -104,15 +104,19 @@ struct PsTarget : Target {
     void onCall(int p, const std::string &op) override {
         if (op.rfind("push:", 0) == 0) { const unsigned g = std::stoul(op.substr(5)); held[p].erase(g); transit.insert(g); }
     }
+    static bool IsNum(const std::string &x) { return !x.empty() && x.find_first_not_of("0123456789") == std::string::npos; }
     void onReturn(int p, const std::string &op, const std::string &r) override {
+        // During edge replay of a diverging implementation a command may begin an operation while the previous one
+        // is still running; the runner then pairs results with the wrong operation. Such pairs are not judged.
         if (op == "pop") {
             if (r == "F") return;                                  // justified or not: decided by TLC on the history
+            if (!IsNum(r)) return;
             const unsigned g = std::stoul(r);
             if (g >= cap || !managed.count(g)) { if (broken.empty()) broken = "pop returned page " + r + " which is not a page of the pool"; }
             for (int q = 0; q < n; ++q) if (held[q].count(g) && broken.empty())
                 broken = "pop by fiber " + std::to_string(p) + " returned page " + r + " which fiber " + std::to_string(q) + " holds";
             held[p].insert(g);
-        } else {
+        } else if (r == "T") {
             transit.erase(std::stoul(op.substr(5)));
         }
     }
@@ -122,6 +126,9 @@ struct PsTarget : Target {
         return s + "]";
     }
     std::string monitor() override { return broken; }
+    /// part of the explorer's state key: an aborted fiber (failed assert) differs from a running one even when the
+    /// aborting step changed no shared state - otherwise the explorer would take the abort for a revisit
+    std::string hidden(int p) override { return Sched::I().aborted(p) ? "aborted" : ""; }
     /// all fibers idle: a fresh sequence of pops (run on a byte copy of the stack, the way another process would see
     /// the shared segment) must obtain exactly the pages nobody holds
     std::string quiescent() override {
